@@ -1190,7 +1190,9 @@ func (ctx *Context) evaluate() {
 			e.top = newTop
 			fstrBlockIndex -= 1
 			if v != nil {
-				stackPush(v)
+				// 这一段到此为止: 立刻取字符串形式。留着值本身、等整个模板结束再转换的话，
+				// 后面的 {% %} 修改了同一个数组/字典，前面已经拼好的部分也会跟着变
+				stackPush(NewStrVal(v.ToString()))
 			} else {
 				stackPush(NewStrVal(""))
 			}
